@@ -1,9 +1,9 @@
 package c03
 
 import (
-	bt "github.com/libsv/go-bt/v2"
 	"bytes"
 	"fmt"
+	bt "github.com/libsv/go-bt/v2"
 	"testing"
 
 	"github.com/libsv/go-bt/v2/bscript"
@@ -80,7 +80,8 @@ func checkEdits(ctx *pbt.Ctx, c EditCase) error {
 	m := c.Tx
 	m.In = append([]ref.In{}, c.Tx.In...)
 	m.Out = append([]ref.Out{}, c.Tx.Out...)
-	tx := ref.ToLib(m)
+	tx, via := ref.ToLibVia(m)
+	ctx.Label("object=" + via)
 	var undo []*bscript.Script
 	defer func() {
 		for _, s := range undo {
